@@ -283,7 +283,7 @@ class Ctx(object):
                 model = v.model
                 syms = solve.free_symbols(*[self.cache[n] for n in self.cache])
                 rm = None
-                if v.where is not None:
+                if v.where is not None and 'witness by evaluation' not in (v.note or ''):
                     try:
                         rm = solve.robust_model(out, oracle, v.where, assum, syms, min(self.timeout_ms, 30000))
                     except Exception:
